@@ -137,6 +137,7 @@ var _ = constant.MakeBool
 // keepPrivateSlices: after the effects of a call have been applied to st, the backing arrays that the
 // private slice variables of the function under verification refer to have the elements they had before.
 func (x *Exec) keepPrivateSlices(st *State, before map[string]*Term) {
+	x.keepPrivateBoxes(st, before)
 	if x.privCells == nil {
 		x.privCells = privateSliceCells(x.fn)
 		if len(x.privCells) > 0 {
@@ -179,4 +180,177 @@ func join(ss []string, sep string) string {
 		out += s
 	}
 	return out
+}
+
+// Private boxes (under fresh-frames): a local variable that lives on the heap only because function
+// literals of the same function capture it. It is private when it is only read and written directly, or
+// captured by function literals that are themselves only kept in a local variable and called from there
+// (never passed, stored elsewhere or returned), and which use the captured variable only by reading and
+// writing it. No callee can then reach the variable: across a call it keeps its value.
+func privateBoxes(fn *ssa.Function) []*ssa.Alloc {
+	var out []*ssa.Alloc
+	for _, b := range fn.Blocks {
+		for _, in := range b.Instrs {
+			al, ok := in.(*ssa.Alloc)
+			if !ok || !al.Heap || al.Comment == "" || al.Referrers() == nil {
+				continue
+			}
+			switch deref(al.Type()).Underlying().(type) {
+			case *types.Struct, *types.Array:
+				continue // scalars, strings, slices and pointers only
+			}
+			if boxIsPrivate(al) {
+				out = append(out, al)
+			}
+		}
+	}
+	return out
+}
+
+func boxIsPrivate(al *ssa.Alloc) bool {
+	for _, ref := range *al.Referrers() {
+		switch r := ref.(type) {
+		case *ssa.Store:
+			if r.Addr != ssa.Value(al) {
+				return false
+			}
+		case *ssa.UnOp:
+			if r.Op != token.MUL || r.X != ssa.Value(al) {
+				return false
+			}
+		case *ssa.MakeClosure:
+			if !closureStaysLocal(r) {
+				return false
+			}
+			lit, ok := r.Fn.(*ssa.Function)
+			if !ok {
+				return false
+			}
+			for k, bnd := range r.Bindings {
+				if bnd != ssa.Value(al) {
+					continue
+				}
+				if k >= len(lit.FreeVars) || !freeVarOnlyReadWritten(lit.FreeVars[k]) {
+					return false
+				}
+			}
+		case *ssa.DebugRef:
+		default:
+			return false
+		}
+	}
+	return true
+}
+
+// closureStaysLocal: the function literal is stored in one local variable only, and what is loaded from
+// that variable is only called.
+func closureStaysLocal(mc *ssa.MakeClosure) bool {
+	if mc.Referrers() == nil {
+		return true
+	}
+	for _, ref := range *mc.Referrers() {
+		switch r := ref.(type) {
+		case *ssa.Store:
+			cell, ok := r.Addr.(*ssa.Alloc)
+			if !ok || cell.Heap || r.Val != ssa.Value(mc) || cell.Referrers() == nil {
+				return false
+			}
+			for _, cr := range *cell.Referrers() {
+				switch c := cr.(type) {
+				case *ssa.Store:
+					if c.Addr != ssa.Value(cell) {
+						return false
+					}
+				case *ssa.UnOp:
+					if c.Op != token.MUL || c.Referrers() == nil {
+						return false
+					}
+					for _, lr := range *c.Referrers() {
+						switch l := lr.(type) {
+						case *ssa.Call:
+							if l.Call.Value != ssa.Value(c) {
+								return false // passed as an argument
+							}
+							for _, a := range l.Call.Args {
+								if a == ssa.Value(c) {
+									return false
+								}
+							}
+						case *ssa.DebugRef:
+						default:
+							return false
+						}
+					}
+				case *ssa.DebugRef:
+				default:
+					return false
+				}
+			}
+		case *ssa.Call:
+			if r.Call.Value != ssa.Value(mc) {
+				return false
+			}
+		case *ssa.DebugRef:
+		default:
+			return false
+		}
+	}
+	return true
+}
+
+func freeVarOnlyReadWritten(fv *ssa.FreeVar) bool {
+	if fv.Referrers() == nil {
+		return true
+	}
+	for _, ref := range *fv.Referrers() {
+		switch r := ref.(type) {
+		case *ssa.Store:
+			if r.Addr != ssa.Value(fv) {
+				return false
+			}
+		case *ssa.UnOp:
+			if r.Op != token.MUL {
+				return false
+			}
+		case *ssa.DebugRef:
+		default:
+			return false
+		}
+	}
+	return true
+}
+
+// keepPrivateBoxes: see keepPrivateSlices.
+func (x *Exec) keepPrivateBoxes(st *State, before map[string]*Term) {
+	if x.privBoxes == nil {
+		x.privBoxes = privateBoxes(x.fn)
+		if len(x.privBoxes) > 0 {
+			var names []string
+			for _, al := range x.privBoxes {
+				names = append(names, al.Comment)
+			}
+			sort.Strings(names)
+			x.ledger["fresh-frames: private captured variables (only this function and its own function literals read and write them): kept across calls: "+join(names, ", ")] = true
+		}
+		if x.privBoxes == nil {
+			x.privBoxes = []*ssa.Alloc{}
+		}
+	}
+	c := x.c
+	for _, al := range x.privBoxes {
+		p, ok := x.regs[al].(PtrV)
+		if !ok || p.Kind != PRef {
+			continue
+		}
+		et := deref(al.Type())
+		for _, l := range leavesOf(et) {
+			k := "B:" + typeKey(et) + l.suffix
+			old, had := before[k]
+			now, has := st.heap[k]
+			if !had || !has || old == now {
+				continue
+			}
+			x.assume(st, c.Eq(c.Select(now, p.Base), c.Select(old, p.Base)))
+		}
+	}
 }
